@@ -139,7 +139,7 @@ def tokensFromShares (stakerShare totalShare : Dec) (totalAmount : Int) : Except
   if totalShare.raw < stakerShare.raw then .error "ErrInsufficientShares"
   else if totalShare.raw = 0 then
     if totalAmount = 0 then .ok 0 else .error "ErrDivisorIsZero"
-  else .ok ((Dec.quo (Dec.mulInt stakerShare totalAmount) totalShare).truncateInt)
+  else .ok ((Dec.quoTruncate (Dec.mulInt stakerShare totalAmount) totalShare).truncateInt)
 
 /-- x/delegation/keeper/share.go: SharesFromTokens -/
 def sharesFromTokens (totalShare : Dec) (stakerAmount totalAmount : Int) : Except String Dec :=
